@@ -52,7 +52,7 @@
 using namespace occa::lang;
 
 extern "C" const char *__asan_default_options() {
-  return "detect_leaks=0:abort_on_error=0:exitcode=66:handle_sigfpe=1:handle_abort=0:allocator_may_return_null=1:"
+  return "detect_leaks=0:abort_on_error=0:exitcode=66:handle_sigfpe=1:handle_abort=1:allocator_may_return_null=1:"
          "max_allocation_size_mb=1024:detect_stack_use_after_return=0:symbolize=1:fast_unwind_on_malloc=1";
 }
 extern "C" const char *__ubsan_default_options() {
@@ -60,10 +60,18 @@ extern "C" const char *__ubsan_default_options() {
 }
 
 //---[ coverage feedback (clang inline 8-bit counters; absent in the g++ build) ]---------------
-static std::vector<std::pair<uint8_t*, uint8_t*> > covRegions;
+// (plain arrays: the callback runs from the library's constructors, before this file's statics exist)
+struct CovRegion { uint8_t *first, *second; };
+static CovRegion covRegionsArr[64];
+static int covRegionCount = 0;
+struct CovRegions {
+  CovRegion *begin() const { return covRegionsArr; }
+  CovRegion *end() const { return covRegionsArr + covRegionCount; }
+};
+static CovRegions covRegions;
 extern "C" void __sanitizer_cov_8bit_counters_init(uint8_t *start, uint8_t *stop) {
-  for (auto &r : covRegions) if (r.first == start) return;
-  covRegions.push_back(std::make_pair(start, stop));
+  for (int i = 0; i < covRegionCount; ++i) if (covRegionsArr[i].first == start) return;
+  if (covRegionCount < 64) { covRegionsArr[covRegionCount].first = start; covRegionsArr[covRegionCount].second = stop; ++covRegionCount; }
 }
 extern "C" void __sanitizer_cov_pcs_init(const uintptr_t *, const uintptr_t *) {}
 
@@ -98,8 +106,17 @@ struct Result {            // written by the child into shared memory
   volatile int current;    // translator being run (for the signature)
   volatile int newcov;     // number of new coverage features
   volatile int outBytes;   // size of the printed translations
+  volatile int cpuMs;      // CPU time used by this input (all translators)
+  volatile long logStart, logEnd;   // slice of the sanitizer log written while this input ran
 };
+static const int BATCH = 64;
+struct Shared {
+  volatile int index;      // input being executed by the batch child
+  Result r[BATCH];
+};
+static Shared *shared;
 static Result *res;
+static void zeroCounters() { for (auto &r : covRegions) memset(r.first, 0, r.second - r.first); }
 static uint8_t *seenCov;   // shared: one byte of hit-count buckets per counter
 static size_t covSize;
 
@@ -153,7 +170,7 @@ struct Outcome {
   std::string status;      // ok | crash | timeout
   std::string sig;         // signature (class + first occa frame), stable across runs
   std::string detail;      // first lines of the sanitizer report
-  int accepted, reached, threw, newcov;
+  int accepted, reached, threw, newcov, cpuMs;
 };
 
 static std::string readLog() {
@@ -167,24 +184,40 @@ static std::string readLog() {
   return s;
 }
 
+static std::string frameFunction(const std::string &line) {
+  // "    #3 0x... in occa::lang::foo<T>(args) const /path/file.cpp:123"
+  size_t in = line.find(" in ");
+  if (in == std::string::npos) return "";
+  std::string fn = line.substr(in + 4);
+  size_t path = fn.find(" /");
+  if (path != std::string::npos) fn = fn.substr(0, path);
+  size_t par = fn.find('(');
+  if (par != std::string::npos && par > 0) fn = fn.substr(0, par);
+  // drop a leading return type ("T& ns::f<...>")
+  int depth = 0; size_t lastSpace = std::string::npos;
+  for (size_t i = 0; i < fn.size(); ++i) { if (fn[i] == '<') ++depth; else if (fn[i] == '>') --depth; else if (fn[i] == ' ' && depth == 0) lastSpace = i; }
+  if (lastSpace != std::string::npos && lastSpace + 1 < fn.size()) fn = fn.substr(lastSpace + 1);
+  // template arguments carry no information for a signature
+  std::string out; depth = 0;
+  for (char c : fn) { if (c == '<') ++depth; else if (c == '>') --depth; else if (!depth) out += c; }
+  return out;
+}
+
 static std::string firstOccaFrame(const std::string &log, size_t from) {
-  // "    #3 0x... in occa::lang::foo(args) /path/file.cpp:123"
   size_t p = from;
   std::string firstAny;
-  for (int k = 0; k < 60; ++k) {
+  for (int k = 0; k < 80; ++k) {
     p = log.find("\n    #", p);
     if (p == std::string::npos) break;
     size_t e = log.find('\n', p + 1);
     std::string line = log.substr(p + 1, e == std::string::npos ? std::string::npos : e - p - 1);
     p = p + 1;
-    size_t in = line.find(" in ");
-    if (in == std::string::npos) continue;
-    std::string fn = line.substr(in + 4);
-    size_t par = fn.find('(');
-    size_t sp = fn.find(' ');
-    fn = fn.substr(0, std::min(par, sp));
+    std::string fn = frameFunction(line);
+    if (fn.empty()) continue;
     if (firstAny.empty()) firstAny = fn;
-    if (fn.find("occa::") != std::string::npos && fn.find("fuzz_okl") == std::string::npos) return fn;
+    if (fn.find("occa::") != std::string::npos && line.find("fuzz_okl") == std::string::npos) return fn;
+    // stop at the end of the first stack (the allocation/free stacks of a use-after-free follow)
+    if (e != std::string::npos && log.compare(e, 2, "\n\n") == 0) break;
   }
   return firstAny;
 }
@@ -209,7 +242,7 @@ static std::map<std::string, long> benignCount;
 
 static Outcome classify(int status, const std::string &log) {
   Outcome o;
-  o.accepted = res->accepted; o.reached = res->reached; o.threw = res->threw; o.newcov = res->newcov;
+  o.accepted = res->accepted; o.reached = res->reached; o.threw = res->threw; o.newcov = res->newcov; o.cpuMs = res->cpuMs;
   std::string who = (res->current >= 0 && res->current < NP) ? parserNames[res->current] : "-";
   size_t a = log.find("ERROR: AddressSanitizer: ");
   if (a != std::string::npos) {
@@ -225,6 +258,13 @@ static Outcome classify(int status, const std::string &log) {
     }
     o.status = "crash";
     o.sig = "asan:" + kind + " in " + firstOccaFrame(log, a);
+    if (kind == "ABRT") {
+      size_t t = log.find("terminate called after throwing an instance of '");
+      if (t != std::string::npos) {
+        size_t e = log.find('\'', t + 48);
+        o.sig = "abort:uncaught " + log.substr(t + 48, e - t - 48) + " in " + firstOccaFrame(log, a);
+      } else o.sig = "abort in " + firstOccaFrame(log, a);
+    }
     o.detail = log.substr(a, 1500);
     return o;
   }
@@ -243,8 +283,12 @@ static Outcome classify(int status, const std::string &log) {
       std::string file = line.substr(0, line.find(':'));
       // strip numbers / addresses from the message so that the signature is stable
       std::string kind;
-      for (char c : msg) { if (isdigit((unsigned char) c)) { if (kind.empty() || kind.back() != '#') kind += '#'; } else kind += c; }
-      if (kind.size() > 70) kind.resize(70);
+      for (size_t q = 0; q < msg.size(); ++q) {
+        char c = msg[q];
+        if (c == '0' && q + 1 < msg.size() && msg[q+1] == 'x') { q += 2; while (q < msg.size() && isxdigit((unsigned char) msg[q])) ++q; --q; kind += "ADDR"; continue; }
+        if (isdigit((unsigned char) c)) { if (kind.empty() || kind.back() != '#') kind += '#'; } else kind += c;
+      }
+      if (kind.size() > 110) kind.resize(110);
       std::string sig = "ubsan:" + baseName(file) + ": " + kind;
       if (benignUb(msg)) { benignCount[sig]++; continue; }
       if (firstBad.empty()) { firstBad = sig; o.detail = line; }
@@ -290,7 +334,31 @@ static Outcome classify(int status, const std::string &log) {
   return o;
 }
 
-static Outcome execute(const std::string &src) {
+static long cpuNowMs() {
+  struct rusage u; getrusage(RUSAGE_SELF, &u);
+  return (u.ru_utime.tv_sec + u.ru_stime.tv_sec) * 1000L + (u.ru_utime.tv_usec + u.ru_stime.tv_usec) / 1000L;
+}
+
+static void armTimer(int seconds) {
+  struct itimerval tv; memset(&tv, 0, sizeof tv);
+  tv.it_value.tv_sec = seconds;
+  setitimer(ITIMER_PROF, &tv, NULL);
+}
+
+static int scanCoverage() {
+  int nc = 0;
+  if (seenCov) {
+    size_t k = 0;
+    for (auto &r : covRegions)
+      for (uint8_t *c = r.first; c < r.second; ++c, ++k)
+        if (*c) { uint8_t b = bucket(*c); if (!(seenCov[k] & b)) { seenCov[k] |= b; ++nc; } }
+  }
+  return nc;
+}
+
+static Outcome execute(const std::string &src, int limit = 0) {
+  if (limit <= 0) limit = cpuLimit;
+  res = &shared->r[0];
   memset((void*) res, 0, sizeof(Result));
   res->current = -1;
   if (ftruncate(logFd, 0)) {}
@@ -300,22 +368,14 @@ static Outcome execute(const std::string &src) {
   if (pid == 0) {
     dup2(logFd, 2);
     // CPU time, not wall time: the verdict must not depend on the load of the machine
-    struct itimerval tv; memset(&tv, 0, sizeof tv);
-    tv.it_value.tv_sec = cpuLimit;
     signal(SIGPROF, SIG_DFL);
-    setitimer(ITIMER_PROF, &tv, NULL);
+    armTimer(limit);
     signal(SIGALRM, SIG_DFL);
-    alarm(cpuLimit * 30 + 60);          // backstop for a child blocked without using CPU
+    alarm(limit * 30 + 120);            // backstop for a child blocked without using CPU
+    long t0 = cpuNowMs();
     runAll(src, parserMask);
-    // coverage
-    int nc = 0;
-    if (seenCov) {
-      size_t k = 0;
-      for (auto &r : covRegions)
-        for (uint8_t *c = r.first; c < r.second; ++c, ++k)
-          if (*c) { uint8_t b = bucket(*c); if (!(seenCov[k] & b)) { seenCov[k] |= b; ++nc; } }
-    }
-    res->newcov = nc;
+    res->cpuMs = (int) (cpuNowMs() - t0);
+    res->newcov = scanCoverage();
     _exit(0);
   }
   int status = 0;
@@ -325,8 +385,70 @@ static Outcome execute(const std::string &src) {
   return classify(status, log);
 }
 
+// Run inputs[0..n) (n <= BATCH) in as few children as possible: one child executes the inputs one after
+// the other (parser state is cleared by parseSource, as in the library); when it dies the parent
+// classifies the input it died in and starts a new child on the rest.  Every non-ok outcome is only a
+// CANDIDATE: the caller confirms it with `execute` (a fresh process for that input alone).
+static void runBatch(const std::vector<std::string> &inputs, int limit, std::vector<Outcome> &out) {
+  int n = (int) inputs.size();
+  out.assign(n, Outcome());
+  memset((void*) shared, 0, sizeof(Shared));
+  if (ftruncate(logFd, 0)) {}
+  lseek(logFd, 0, SEEK_SET);
+  int from = 0;
+  while (from < n) {
+    shared->index = from;
+    pid_t pid = fork();
+    if (pid < 0) { perror("fork"); exit(3); }
+    if (pid == 0) {
+      dup2(logFd, 2);
+      signal(SIGPROF, SIG_DFL);
+      signal(SIGALRM, SIG_DFL);
+      for (int j = from; j < n; ++j) {
+        res = &shared->r[j];
+        res->current = -1;
+        res->logStart = lseek(logFd, 0, SEEK_END);
+        shared->index = j;
+        zeroCounters();
+        armTimer(limit);
+        alarm(limit * 30 + 120);
+        long t0 = cpuNowMs();
+        runAll(inputs[j], parserMask);
+        armTimer(0);
+        res->cpuMs = (int) (cpuNowMs() - t0);
+        res->newcov = scanCoverage();
+        res->logEnd = lseek(logFd, 0, SEEK_END);
+      }
+      shared->index = n;
+      _exit(0);
+    }
+    int status = 0;
+    while (waitpid(pid, &status, 0) < 0 && errno == EINTR) {}
+    int upto = shared->index;           // inputs [from, upto) completed normally
+    bool died = !(WIFEXITED(status) && WEXITSTATUS(status) == 0 && upto >= n);
+    if (upto > n) upto = n;
+    std::string log = (lseek(logFd, 0, SEEK_END) > 0) ? readLog() : std::string();
+    for (int j = from; j < upto; ++j) {
+      res = &shared->r[j];
+      std::string slice;
+      if (res->logEnd > res->logStart && (size_t) res->logStart < log.size()) slice = log.substr(res->logStart, res->logEnd - res->logStart);
+      out[j] = classify(0, slice);
+    }
+    if (!died) break;
+    if (upto < n) {
+      res = &shared->r[upto];
+      std::string slice = ((size_t) res->logStart < log.size()) ? log.substr(res->logStart) : std::string();
+      out[upto] = classify(status, slice);
+      if (out[upto].status == "ok") { out[upto].status = "crash"; out[upto].sig = "exit:unknown"; }
+    }
+    from = upto + 1;
+  }
+  res = &shared->r[0];
+}
+
 static void setupShared() {
-  res = (Result*) mmap(NULL, 4096, PROT_READ | PROT_WRITE, MAP_SHARED | MAP_ANONYMOUS, -1, 0);
+  shared = (Shared*) mmap(NULL, sizeof(Shared), PROT_READ | PROT_WRITE, MAP_SHARED | MAP_ANONYMOUS, -1, 0);
+  res = &shared->r[0];
   covSize = 0;
   for (auto &r : covRegions) covSize += r.second - r.first;
   if (covSize) {
@@ -341,9 +463,6 @@ static void setupShared() {
   unlink(tmpl);
 }
 
-static void zeroCounters() {
-  for (auto &r : covRegions) memset(r.first, 0, r.second - r.first);
-}
 
 //---[ PRNG ]-----------------------------------------------------------------------------------
 struct Rng {
@@ -764,6 +883,7 @@ int main(int argc, char **argv) {
       printf("%s\t%s\t%s\t%d/%d/%d\t%s\n", f.c_str(), o.status.c_str(), o.sig.empty() ? "-" : o.sig.c_str(), o.accepted, o.reached, o.threw,
              oneLine(o.detail).substr(0, 400).c_str());
       fflush(stdout);
+      if (getenv("FUZZ_VERBOSE")) printf("#cpu_ms=%d\n#log: %s\n", o.cpuMs, o.detail.c_str());
       if (o.status != "ok") bad = 1;
     }
     for (auto &b : benignCount) printf("#benign\t%s\t%ld\n", b.first.c_str(), b.second);
@@ -786,59 +906,97 @@ int main(int argc, char **argv) {
 
   if (mode == "fuzz") {
     std::vector<std::string> corpus;
-    for (auto &f : listDir(corpusDir)) { std::string s; if (readFile(f, s)) { size_t z = s.find('\0'); if (z != std::string::npos) s.resize(z); corpus.push_back(s); } }
+    for (auto &f : listDir(corpusDir)) { std::string s; if (readFile(f, s)) { size_t z = s.find('\0'); if (z != std::string::npos) s.resize(z); corpus.push_back(steerOn ? steer(s) : s); } }
     if (corpus.empty()) { fprintf(stderr, "empty corpus\n"); return 2; }
     size_t seeds = corpus.size();
     Rng r(seed);
     std::set<uint64_t> seenInputs;
     std::map<std::string, int> sigCount;
-    long execs = 0, distinct = 0, reachedN = 0, acceptedAll = 0, acceptedSome = 0, rejected = 0, threwN = 0, crashes = 0, timeouts = 0, covAdds = 0;
+    long execs = 0, distinct = 0, reachedN = 0, acceptedAll = 0, acceptedSome = 0, rejected = 0, threwN = 0, crashes = 0, timeouts = 0, covAdds = 0,
+         flaky = 0, seedReached = 0, candidates = 0, maxMs = 0;
     long accPer[NP] = {0};
     struct timespec t0; clock_gettime(CLOCK_MONOTONIC, &t0);
     auto elapsed = [&]() { struct timespec t; clock_gettime(CLOCK_MONOTONIC, &t); return (t.tv_sec - t0.tv_sec) + 1e-9 * (t.tv_nsec - t0.tv_nsec); };
-    // the seeds themselves first (fills the coverage map)
     std::vector<std::string> samples;
-    long k = 0;
+    int limit = 3600;                 // while calibrating on the seeds; afterwards max(--cpu, 100 x slowest seed)
+    long produced = 0;
+    size_t nextSeed = 0;
+    bool calibrated = false;
     for (;;) {
-      bool isSeed = (size_t) k < seeds;
-      if (!isSeed) {
-        if (iters >= 0 && k - (long) seeds >= iters) break;
+      std::vector<std::string> batch;
+      bool seedBatch = nextSeed < seeds;
+      if (seedBatch) {
+        while (nextSeed < seeds && batch.size() < (size_t) BATCH) batch.push_back(corpus[nextSeed++]);
+      } else {
+        if (!calibrated) {
+          calibrated = true;
+          limit = std::max<long>(cpuLimit, (100 * maxMs + 999) / 1000);
+          printf("CALIBRATION\tslowest_seed_ms=%ld\tcpu_limit_s=%d\n", maxMs, limit); fflush(stdout);
+        }
+        if (iters >= 0 && produced >= iters) break;
         if (secs >= 0 && elapsed() >= secs) break;
         if (iters < 0 && secs < 0) break;
-      }
-      std::string in = isSeed ? (steerOn ? steer(corpus[k]) : corpus[k]) : mutate(r, corpus);
-      ++k;
-      uint64_t h = fnv(in);
-      bool fresh = seenInputs.insert(h).second;
-      if (!fresh && !isSeed) continue;
-      Outcome o = execute(in);
-      ++execs;
-      if (fresh) {
-        ++distinct;
-        if (o.reached) ++reachedN;
-        if (o.accepted == 0x7f) ++acceptedAll; else if (o.accepted) ++acceptedSome; else ++rejected;
-        if (o.threw) ++threwN;
-        for (int p = 0; p < NP; ++p) if (o.accepted & (1 << p)) ++accPer[p];
-      }
-      if (o.status != "ok") {
-        if (o.status == "timeout") ++timeouts; else ++crashes;
-        int c = sigCount[o.sig]++;
-        if (c < 4) {   // keep a few inputs per signature; the plugin minimises the smallest
-          char b[128]; snprintf(b, sizeof b, "/fail-%016llx", (unsigned long long) h);
-          writeFile(outDir + b, in);
-          printf("FAIL\t%s\t%s\t%s\t%s\n", (outDir + b).c_str(), o.status.c_str(), o.sig.c_str(), oneLine(o.detail).substr(0, 600).c_str());
-          fflush(stdout);
+        size_t want = BATCH;
+        if (iters >= 0) want = std::min<long>(want, iters - produced);
+        if (secs >= 0) want = std::min<size_t>(want, 16);      // keep the time budget responsive
+        for (size_t q = 0; q < want; ++q) {
+          std::string in = mutate(r, corpus);
+          ++produced;
+          if (seenInputs.count(fnv(in))) continue;
+          batch.push_back(in);
         }
-        continue;
+        if (batch.empty()) continue;
       }
-      if (o.newcov > 0 && !isSeed && in.size() <= maxLen) { corpus.push_back(in); ++covAdds; }
-      if (!isSeed && samples.size() < 6 && (execs % 97) == 0) samples.push_back(in.substr(0, 300));
+      std::vector<Outcome> outs;
+      runBatch(batch, limit, outs);
+      for (size_t j = 0; j < batch.size(); ++j) {
+        const std::string &in = batch[j];
+        Outcome o = outs[j];
+        uint64_t h = fnv(in);
+        bool fresh = seenInputs.insert(h).second;
+        ++execs;
+        if (o.status != "ok") {
+          // candidate: confirm in a fresh process, alone; a time-out must repeat with three times the limit
+          ++candidates;
+          Outcome c = execute(in, o.status == "timeout" ? 3 * limit : limit);
+          ++execs;
+          if (c.status == "ok" || c.sig != o.sig) {
+            Outcome c2 = (c.status == "ok") ? c : execute(in, c.status == "timeout" ? 3 * limit : limit);
+            if (c2.status == "ok" || c2.sig != c.sig) {
+              ++flaky;
+              printf("FLAKY\t%s\t%s\t%s\n", o.sig.c_str(), c.status.c_str(), c.sig.c_str()); fflush(stdout);
+              o = c2; if (o.status != "ok") { o.status = "ok"; }
+            } else o = c2;
+          } else o = c;
+        }
+        if (fresh) {
+          ++distinct;
+          if (o.reached) { ++reachedN; if (seedBatch) ++seedReached; }
+          if (o.accepted == 0x7f) ++acceptedAll; else if (o.accepted) ++acceptedSome; else ++rejected;
+          if (o.threw) ++threwN;
+          for (int p = 0; p < NP; ++p) if (o.accepted & (1 << p)) ++accPer[p];
+        }
+        if (o.status != "ok") {
+          if (o.status == "timeout") ++timeouts; else ++crashes;
+          int c = sigCount[o.sig]++;
+          if (c < 3 && !outDir.empty()) {   // keep a few inputs per signature; the plugin minimises the smallest
+            char b[128]; snprintf(b, sizeof b, "/fail-%016llx", (unsigned long long) h);
+            writeFile(outDir + b, in);
+            printf("FAIL\t%s\t%s\t%s\t%s\n", (outDir + b).c_str(), o.status.c_str(), o.sig.c_str(), oneLine(o.detail).substr(0, 600).c_str());
+            fflush(stdout);
+          }
+          continue;
+        }
+        if (seedBatch && o.cpuMs > maxMs) maxMs = o.cpuMs;
+        if (o.newcov > 0 && !seedBatch && in.size() <= maxLen) { corpus.push_back(in); ++covAdds; }
+        if (!seedBatch && samples.size() < 6 && (execs % 37) == 0) samples.push_back(in.substr(0, 300));
+      }
     }
     size_t covered = 0;
     for (size_t i = 0; i < covSize; ++i) if (seenCov[i]) ++covered;
-    printf("STATS\texecs=%ld\tdistinct=%ld\treached=%ld\taccepted_all=%ld\taccepted_some=%ld\trejected=%ld\tthrew=%ld\tcrashes=%ld\ttimeouts=%ld\t"
-           "cov_edges=%zu\tcov_total=%zu\tcorpus_added=%ld\tsecs=%.1f",
-           execs, distinct, reachedN, acceptedAll, acceptedSome, rejected, threwN, crashes, timeouts, covered, covSize, covAdds, elapsed());
+    printf("STATS\texecs=%ld\tdistinct=%ld\treached=%ld\tseed_reached=%ld\tseeds=%zu\taccepted_all=%ld\taccepted_some=%ld\trejected=%ld\tthrew=%ld\tcrashes=%ld\ttimeouts=%ld\t"
+           "candidates=%ld\tflaky=%ld\tcov_edges=%zu\tcov_total=%zu\tcorpus_added=%ld\tcpu_limit=%d\tsecs=%.1f",
+           execs, distinct, reachedN, seedReached, seeds, acceptedAll, acceptedSome, rejected, threwN, crashes, timeouts, candidates, flaky, covered, covSize, covAdds, limit, elapsed());
     for (int p = 0; p < NP; ++p) printf("\tacc_%s=%ld", parserNames[p], accPer[p]);
     printf("\n");
     for (auto &s : sigCount) printf("SIG\t%d\t%s\n", s.second, s.first.c_str());
